@@ -190,7 +190,7 @@ func (teb *tagsExpFuncBuilder) buildTagCond(cn *Condition) (err error) {
 		}
 	case CMP_LIKE:
 		// test it first
-		_, err := path.Match(cn.Value, "abc")
+		_, err = path.Match(cn.Value, "abc")
 		if err != nil {
 			err = fmt.Errorf("Wrong 'like' expression for %s, err=%s", cn.Value, err.Error())
 		} else {
